@@ -6,9 +6,9 @@
 (***************************************************************************)
 EXTENDS AnsiValue
 
-\* strict reading of an input SGR body: digits and ';' only, no empty parameter unless wholly empty
+\* an input SGR body inside the claim: digits and ';' only; an empty parameter is read as 0 like a terminal does
 SgrStrictOK(params) ==
-  params = << >> \/ (LET pl == ParamList(params) IN pl.ok /\ TermEffs(pl.ps).ok)
+  params = << >> \/ (LET pl == ParamListE(params) IN pl.ok /\ TermEffs(pl.ps).ok)
 
 
 ---------------------------------------------------------------------------
